@@ -100,3 +100,14 @@ pub fn cases(tag: u32) -> Vec<Case> {
     }
     v
 }
+
+/// `this` is captured where a function is created and bound per call: programs shared by C04, C05 and C14
+pub const THIS_PROGRAMS: &[&str] = &[
+    "X := {\"id\": \"X\", \"mk\": fn () {\nreturn fn () {\nreturn this.id\n}\n}}\nY := {\"id\": \"Y\", \"run\": fn (g) {\nreturn g()\n}}\ng := X.mk()\nprint(g())\nprint(Y.run(g))\nprint(Y.run(X.mk()))\n",
+    "fn plain() {\nreturn this.id\n}\nY := {\"id\": \"Y\", \"call\": fn () {\nprint(\"in call\")\nreturn plain()\n}}\nprint(\"pre\")\nprint(Y.call())\n",
+    "p := fn () {\nreturn this.id\n}\nY := {\"id\": \"Y\", \"call\": fn (f) {\nreturn f()\n}}\nprint(\"pre\")\nprint(Y.call(p))\n",
+    "m := fn (other) {\nif other != null {\nother.m(null)\n}\nthis.n += 1\nreturn this.id\n}\na := {\"id\": \"A\", \"n\": 0, \"m\": m}\nb := {\"id\": \"B\", \"n\": 10, \"m\": m}\nprint(a.m(b))\nprint(a.n)\nprint(b.n)\nprint(b.m(a))\nprint([a.n, b.n])\n",
+    "fn node(v, kids) {\nreturn {\"v\": v, \"kids\": kids, \"sum\": fn () {\nt := this.v\nfor [i, c] in this.kids {\nt += c.sum()\n}\nreturn t + this.v\n}}\n}\nt := node(1, [node(2, []), node(3, [node(4, [])])])\nprint(t.sum())\n",
+    "a := {\"id\": \"A\", \"go\": fn (cb) {\ncb()\nreturn this.id\n}}\nb := {\"id\": \"B\", \"hello\": fn () {\nreturn this.id\n}}\nprint(a.go(fn () {\nprint(b.hello())\n}))\n",
+    "b := {\"id\": \"B\", \"who\": fn () {\nreturn this.id\n}}\nfn helper() {\nreturn b.who()\n}\na := {\"id\": \"A\", \"go\": fn () {\nx := helper()\nreturn [x, this.id]\n}}\nprint(a.go())\n",
+];
